@@ -9,7 +9,7 @@ FUNCS = ['RangeProofTranscript::{new,challenges_y_z,challenge_round_e,challenge_
 
 def cases(tier):
     out = []
-    cfgs = [(8, 1, 1, 1), (2, 2, 4, 2), (4, 4, 4, 6), (64, 1, 1, 3)] if tier == 'quick' else \
+    cfgs = [(8, 1, 1, 1), (2, 2, 4, 2), (4, 4, 4, 6), (64, 1, 1, 3), (4, 4, 4, 1)] if tier == 'quick' else \
         [(8, 1, 1, 1), (2, 2, 4, 2), (4, 4, 4, 6), (64, 1, 1, 3), (1, 2, 2, 4), (16, 8, 8, 5), (32, 2, 4, 1), (64, 4, 4, 6), (2, 16, 16, 2)]
     for (n, m, cap, x) in cfgs:
         cfg = {'scenario': 'adversarial', 'n': n, 'x': x,
@@ -20,6 +20,11 @@ def cases(tier):
                 cfg2 = {'scenario': 'adversarial', 'n': n, 'x': x, 'actions': ['VerifyOnly'],
                         'members': [{'m': m, 'cap': cap, 'rounds': ilog2(n * m), 'promises': [('sym' if j % 2 == pat else None) for j in range(m)], 'free_gens': True, 'ctx_elem': True}]}
                 out.append({'cfg': cfg2, 'kind': 'verifier', 'name': 'verifier n%d m%d c%d x%d promises at %s positions' % (n, m, cap, x, 'even' if pat == 0 else 'odd')})
+    # inside a batch every member's own generators must be the ones that are hashed: a member (largest, not first) with other H / G_k is refused
+    for order in ([0, 1], [1, 0], [0, 1, 0]):
+        mem = [{'m': 1, 'cap': 1, 'rounds': 2, 'free_gens': False}, {'m': 2, 'cap': 2, 'rounds': 3, 'free_gens': True}]
+        out.append({'cfg': {'scenario': 'adversarial', 'n': 4, 'x': 1, 'members': [mem[o] for o in order], 'actions': ['VerifyOnly', 'RecoverAndVerify', 'RecoverOnly']},
+                    'kind': 'batch-generators', 'name': 'batch %s: the larger member uses other commitment generators' % order, 'order': order})
     for (n, m, cap, x) in cfgs[:3] if tier == 'quick' else cfgs[:6]:
         cfg = {'scenario': 'batch', 'n': n, 'x': x, 'members': [{'m': m, 'cap': cap, 'promises': ['sym' if j % 2 == 0 else None for j in range(m)], 'seeded': m == 1}], 'actions': ['VerifyOnly']}
         out.append({'cfg': cfg, 'kind': 'prover', 'name': 'prover/verifier agreement n%d m%d c%d x%d' % (n, m, cap, x)})
@@ -47,6 +52,14 @@ def analyse(ctx, case, run, S):
         plog = run.out['prove'][0]['log_after']
         ctx.expect(plog == final_e, 'C04:prover-verifier-transcripts',
                    '%s: the prover\'s transcript at its last challenge is not the verifier\'s (they hash different sequences)' % case['name'], cfg, 'honest_rejected')
+        return
+    if case['kind'] == 'batch-generators':
+        rc = {'scenario': 'batch', 'n': 4, 'x': 1, 'actions': ['VerifyOnly', 'RecoverOnly'],
+              'members': [[{'m': 1, 'cap': 1}, {'m': 2, 'cap': 2, 'tamper_statement': {'op': 'h_base'}}][o] for o in case['order']]}
+        for v in run.out['verify'] or []:
+            ctx.expect(isinstance(v['result'], dict) and not run.residual_points(v['events']), 'C04:H-not-bound:batch',
+                       '%s: not refused before the comparison (%s): the member\'s own generators are neither hashed nor checked' % (case['name'], v['action']), cfg, 'verify_not_refused',
+                       {'replay_cfg': rc})
         return
     info = run.out['members'][0]
     mc = cfg['members'][0]
